@@ -1,27 +1,31 @@
-(* Lock/access skeleton language, its interleaving semantics, a flow-sensitive lockset analysis,
-   and the soundness theorem: analysis_ok => no reachable state has two threads at conflicting
-   accesses of one field, and a finished thread holds no lock.
-   Used by C17 (skeletons regenerated from the Go source by /verif/translator on every run). *)
+(* Lock/access control-flow graphs, their interleaving semantics, a lockset dataflow analysis
+   (inferred by a fuelled worklist, then CHECKED node by node), and the definitions needed by the
+   soundness theorem (Proofs/Lockset.v): analysis_ok => no reachable state has two threads at
+   conflicting accesses of one field, and a finished thread holds no lock.
+   Used by C17 (graphs regenerated from the Go source by /verif/translator on every run) and by
+   C12's lock-balance obligation. *)
 From Verif Require Import Lib.Base.
 
 Definition field := N.
 Definition mutex := N.
 
-Inductive stmt :=
-| Skip
-| Acc (f : field) (w : bool)          (* read (false) / write (true) of a shared field *)
-| Lock (m : mutex) (x : bool)         (* x = true: Lock, false: RLock *)
-| Unlock (m : mutex) (x : bool)
-| Seq (a b : stmt)
-| Branch (a b : stmt)                 (* if / switch / select: any branch *)
-| Loop (b : stmt)                     (* zero or more iterations *)
-| Stop.                               (* return: the thread ends here *)
+Inductive instr :=
+| ISkip
+| IAcc (f : field) (w : bool)          (* read (false) / write (true) of a shared field *)
+| ILock (m : mutex) (x : bool)         (* x = true: Lock, false: RLock *)
+| IUnlock (m : mutex) (x : bool).
+
+(* a node executes its instruction and moves to any of its successors; no successor = the
+   thread (method invocation, goroutine) ends *)
+(* n_owner: the entry group the node belongs to (every entry has its own copy of the code it
+   reaches; the translator inlines calls).  Groups flagged single run at most one thread. *)
+Record node := { n_instr : instr; n_succ : list nat; n_owner : nat }.
+Definition graph := list node.
 
 Definition lockset := list (mutex * bool).
-Definition access := (field * bool * lockset)%type.
+Definition access := (field * bool * lockset * nat)%type.   (* field, write?, locks held, owner group *)
 
 Definition lk_eqb (p q : mutex * bool) : bool := (fst p =? fst q) && Bool.eqb (snd p) (snd q).
-
 Definition holds (m : mutex) (L : lockset) : bool := existsb (fun p => fst p =? m) L.
 Definition holds_mode (m : mutex) (x : bool) (L : lockset) : bool := existsb (lk_eqb (m, x)) L.
 
@@ -39,74 +43,60 @@ Fixpoint ls_remove (p : mutex * bool) (L : lockset) : lockset :=
 
 Definition ls_eqb (L1 L2 : lockset) : bool := list_eqb lk_eqb L1 L2.
 
+(* effect of an instruction on the executing thread's lock set (semantics) *)
+Definition exec (i : instr) (L : lockset) : lockset :=
+  match i with
+  | ILock m x => ls_insert (m, x) L
+  | IUnlock m x => ls_remove (m, x) L
+  | _ => L
+  end.
+
+(* the analysis' transfer function: rejects re-acquisition of a held mutex (Go's RWMutex
+   deadlocks on a nested RLock once a writer queues) and release of a lock not held *)
+Definition transfer (i : instr) (L : lockset) : option lockset :=
+  match i with
+  | ILock m x => if holds m L then None else Some (ls_insert (m, x) L)
+  | IUnlock m x => if holds_mode m x L then Some (ls_remove (m, x) L) else None
+  | _ => Some L
+  end.
+
 (* ------------------------------------------------------------------------------------------ *)
-(* Analysis.  Result of a statement from lockset L: None = rejected; Some (None, A) = every path
-   stops; Some (Some L', A) = paths that continue do so with lockset L'.  A = accesses seen. *)
+(* A lockset assignment: for every node, None (not reached) or the lock set held on entry. *)
 
-Definition join (r1 r2 : option lockset) : option (option lockset) :=
-  match r1, r2 with
-  | None, r => Some r
-  | r, None => Some r
-  | Some L1, Some L2 => if ls_eqb L1 L2 then Some (Some L1) else None
-  end.
+Definition assignment := list (option lockset).
 
-Fixpoint an (s : stmt) (L : lockset) : option (option lockset * list access) :=
-  match s with
-  | Skip => Some (Some L, [])
-  | Acc f w => Some (Some L, [(f, w, L)])
-  | Lock m x => if holds m L then None else Some (Some (ls_insert (m, x) L), [])
-  | Unlock m x => if holds_mode m x L then Some (Some (ls_remove (m, x) L), []) else None
-  | Seq a b =>
-      match an a L with
-      | None => None
-      | Some (None, A1) => Some (None, A1)
-      | Some (Some L1, A1) =>
-          match an b L1 with
-          | None => None
-          | Some (r, A2) => Some (r, A1 ++ A2)
-          end
-      end
-  | Branch a b =>
-      match an a L, an b L with
-      | Some (r1, A1), Some (r2, A2) =>
-          match join r1 r2 with
-          | None => None
-          | Some r => Some (r, A1 ++ A2)
-          end
-      | _, _ => None
-      end
-  | Loop b =>
-      match an b L with
-      | Some (None, A) => Some (Some L, A)
-      | Some (Some L1, A) => if ls_eqb L1 L then Some (Some L, A) else None
-      | None => None
-      end
-  | Stop => match L with [] => Some (None, []) | _ => None end
-  end.
+Definition ols_eqb (a b : option lockset) : bool := option_eqb ls_eqb a b.
 
-(* a continuation (stack of statements) *)
-Fixpoint ank (k : list stmt) (L : lockset) : option (list access) :=
-  match k with
-  | [] => match L with [] => Some [] | _ => None end
-  | s :: k' =>
-      match an s L with
-      | None => None
-      | Some (None, A) => Some A
-      | Some (Some L1, A) =>
-          match ank k' L1 with
-          | None => None
-          | Some A' => Some (A ++ A')
+Definition check_node (ls : assignment) (n : nat) (nd : node) : bool :=
+  match nth n ls None with
+  | None => true
+  | Some L =>
+      match transfer (n_instr nd) L with
+      | None => false
+      | Some L' =>
+          match n_succ nd with
+          | [] => match L' with [] => true | _ => false end
+          | succs => forallb (fun s => ols_eqb (nth s ls None) (Some L')) succs
           end
       end
   end.
 
-Fixpoint collect (entries : list stmt) : option (list access) :=
-  match entries with
-  | [] => Some []
-  | e :: es =>
-      match ank [e] [], collect es with
-      | Some A, Some B => Some (A ++ B)
-      | _, _ => None
+Fixpoint check_nodes (ls : assignment) (n : nat) (g : graph) : bool :=
+  match g with
+  | [] => true
+  | nd :: g' => check_node ls n nd && check_nodes ls (S n) g'
+  end.
+
+Definition check_entries (ls : assignment) (entries : list nat) : bool :=
+  forallb (fun e => ols_eqb (nth e ls None) (Some [])) entries.
+
+Fixpoint accesses_from (ls : assignment) (n : nat) (g : graph) : list access :=
+  match g with
+  | [] => []
+  | nd :: g' =>
+      match n_instr nd, nth n ls None with
+      | IAcc f w, Some L => (f, w, L, n_owner nd) :: accesses_from ls (S n) g'
+      | _, _ => accesses_from ls (S n) g'
       end
   end.
 
@@ -114,52 +104,118 @@ Fixpoint collect (entries : list stmt) : option (list access) :=
 Definition excl (L1 L2 : lockset) : bool :=
   existsb (fun p => existsb (fun q => (fst p =? fst q) && (snd p || snd q)) L2) L1.
 
-Definition conflict_free (skip : field -> bool) (a1 a2 : access) : bool :=
-  let '(f1, w1, L1) := a1 in
-  let '(f2, w2, L2) := a2 in
-  negb ((f1 =? f2) && (w1 || w2) && negb (skip f1)) || excl L1 L2.
+Definition conflict_free (skip : field -> bool) (single : nat -> bool) (a1 a2 : access) : bool :=
+  let '(f1, w1, L1, o1) := a1 in
+  let '(f2, w2, L2, o2) := a2 in
+  negb ((f1 =? f2) && (w1 || w2) && negb (skip f1)) || excl L1 L2 || ((o1 =? o2)%nat && single o1).
 
-Definition pairwise_ok (skip : field -> bool) (A : list access) : bool :=
-  forallb (fun a1 => forallb (conflict_free skip a1) A) A.
+Definition pairwise_ok (skip : field -> bool) (single : nat -> bool) (A : list access) : bool :=
+  forallb (fun a1 => forallb (conflict_free skip single a1) A) A.
 
-Definition analysis_ok (skip : field -> bool) (entries : list stmt) : bool :=
-  match collect entries with
-  | None => false
-  | Some A => pairwise_ok skip A
-  end.
+(* successors stay inside the owner group *)
+Definition check_owner (g : graph) (nd : node) : bool :=
+  forallb (fun s => match nth_error g s with Some nd' => (n_owner nd' =? n_owner nd)%nat | None => false end) (n_succ nd).
 
-(* the conflicting pairs, for reporting *)
-Definition conflicts (skip : field -> bool) (A : list access) : list (access * access) :=
-  flat_map (fun a1 => map (fun a2 => (a1, a2)) (filter (fun a2 => negb (conflict_free skip a1 a2)) A)) A.
+Definition check_assignment (skip : field -> bool) (single : nat -> bool) (g : graph) (entries : list nat) (ls : assignment) : bool :=
+  (length ls =? length g)%nat && check_entries ls entries && check_nodes ls 0 g &&
+  forallb (check_owner g) g &&
+  pairwise_ok skip single (accesses_from ls 0 g).
 
 (* ------------------------------------------------------------------------------------------ *)
-(* Semantics: any number of threads, each a continuation with the locks it holds. *)
+(* Inference (not trusted: its result is checked by check_assignment). *)
 
-Definition thread := (list stmt * lockset)%type.
-
-(* what one thread can do next on its own; the boolean picks a branch / another iteration *)
-Definition tstep (t : thread) (c : bool) : option thread :=
-  let '(k, L) := t in
-  match k with
-  | [] => None
-  | Skip :: k' => Some (k', L)
-  | Acc _ _ :: k' => Some (k', L)
-  | Lock m x :: k' => Some (k', ls_insert (m, x) L)
-  | Unlock m x :: k' => Some (k', ls_remove (m, x) L)
-  | Seq a b :: k' => Some (a :: b :: k', L)
-  | Branch a b :: k' => Some ((if c then a else b) :: k', L)
-  | Loop b :: k' => Some (if c then b :: Loop b :: k' else k', L)
-  | Stop :: _ => Some ([], L)
+Fixpoint set_nth {A} (l : list A) (n : nat) (a : A) : list A :=
+  match l, n with
+  | [], _ => []
+  | _ :: l', O => a :: l'
+  | b :: l', S n' => b :: set_nth l' n' a
   end.
+
+(* worklist propagation; a node whose assignment is already Some is not revisited (a conflicting
+   second lock set is caught afterwards by check_nodes) *)
+Fixpoint propagate (fuel : nat) (g : graph) (work : list (nat * lockset)) (ls : assignment) : assignment :=
+  match fuel with
+  | O => ls
+  | S fuel' =>
+      match work with
+      | [] => ls
+      | (n, L) :: work' =>
+          match nth n ls None with
+          | Some _ => propagate fuel' g work' ls
+          | None =>
+              let ls' := set_nth ls n (Some L) in
+              match nth_error g n with
+              | None => propagate fuel' g work' ls'
+              | Some nd =>
+                  match transfer (n_instr nd) L with
+                  | None => propagate fuel' g work' ls'
+                  | Some L' => propagate fuel' g (map (fun s => (s, L')) (n_succ nd) ++ work') ls'
+                  end
+              end
+          end
+      end
+  end.
+
+Definition edges (g : graph) : nat := fold_right (fun nd acc => (length (n_succ nd) + acc)%nat) 0%nat g.
+
+Definition infer (g : graph) (entries : list nat) : assignment :=
+  propagate (S (length g + edges g + length entries)) g (map (fun e => (e, [])) entries) (repeat None (length g)).
+
+Definition analysis_ok (skip : field -> bool) (single : nat -> bool) (g : graph) (entries : list nat) : bool :=
+  check_assignment skip single g entries (infer g entries).
+
+(* reporting *)
+Definition conflicts (skip : field -> bool) (single : nat -> bool) (A : list access) : list (access * access) :=
+  flat_map (fun a1 => map (fun a2 => (a1, a2)) (filter (fun a2 => negb (conflict_free skip single a1 a2)) A)) A.
+
+Fixpoint bad_nodes_from (ls : assignment) (n : nat) (g : graph) : list nat :=
+  match g with
+  | [] => []
+  | nd :: g' => if check_node ls n nd then bad_nodes_from ls (S n) g' else n :: bad_nodes_from ls (S n) g'
+  end.
+
+Definition report (skip : field -> bool) (single : nat -> bool) (g : graph) (entries : list nat) :=
+  let ls := infer g entries in
+  (bad_nodes_from ls 0 g, conflicts skip single (accesses_from ls 0 g)).
+
+(* ------------------------------------------------------------------------------------------ *)
+(* Semantics: any number of threads; a thread is at a node (about to execute it) or done. *)
+
+Inductive tstate := At (pc : nat) | Done.
+Definition thread := (tstate * lockset)%type.
 
 (* a read/write lock: Lock needs nobody else holding it; RLock needs no exclusive holder *)
 Definition compatible (m : mutex) (x : bool) (L' : lockset) : Prop :=
   forall x', In (m, x') L' -> x = false /\ x' = false.
 
-Definition may_step (S : list thread) (i : nat) : Prop :=
+Definition may_step (g : graph) (S : list thread) (i : nat) : Prop :=
   match nth_error S i with
-  | Some (Lock m x :: _, _) => forall j t, j <> i -> nth_error S j = Some t -> compatible m x (snd t)
+  | Some (At pc, _) =>
+      match nth_error g pc with
+      | Some nd =>
+          match n_instr nd with
+          | ILock m x => forall j t, j <> i -> nth_error S j = Some t -> compatible m x (snd t)
+          | _ => True
+          end
+      | None => True
+      end
   | _ => True
+  end.
+
+(* thread t executes its node and moves to successor number c (or ends) *)
+Definition tstep (g : graph) (t : thread) (c : nat) : option thread :=
+  match t with
+  | (At pc, L) =>
+      match nth_error g pc with
+      | None => None
+      | Some nd =>
+          let L' := exec (n_instr nd) L in
+          match n_succ nd with
+          | [] => Some (Done, L')
+          | succs => match nth_error succs c with Some s => Some (At s, L') | None => None end
+          end
+      end
+  | (Done, _) => None
   end.
 
 Fixpoint update {A} (l : list A) (i : nat) (a : A) : list A :=
@@ -169,21 +225,32 @@ Fixpoint update {A} (l : list A) (i : nat) (a : A) : list A :=
   | b :: l', S i' => b :: update l' i' a
   end.
 
-Inductive step : list thread -> list thread -> Prop :=
+Inductive step (g : graph) : list thread -> list thread -> Prop :=
 | step_thread S i t c t' :
-    nth_error S i = Some t -> tstep t c = Some t' -> may_step S i ->
-    step S (update S i t').
+    nth_error S i = Some t -> tstep g t c = Some t' -> may_step g S i ->
+    step g S (update S i t').
 
-Inductive steps : list thread -> list thread -> Prop :=
-| steps_refl S : steps S S
-| steps_cons S1 S2 S3 : steps S1 S2 -> step S2 S3 -> steps S1 S3.
+Inductive steps (g : graph) : list thread -> list thread -> Prop :=
+| steps_refl S : steps g S S
+| steps_cons S1 S2 S3 : steps g S1 S2 -> step g S2 S3 -> steps g S1 S3.
 
-Definition racy (skip : field -> bool) (S : list thread) : Prop :=
-  exists i j f w1 w2 k1 k2 L1 L2,
-    i <> j /\
-    nth_error S i = Some (Acc f w1 :: k1, L1) /\
-    nth_error S j = Some (Acc f w2 :: k2, L2) /\
-    (w1 || w2) = true /\ skip f = false.
+Definition at_access (g : graph) (t : thread) (f : field) (w : bool) : Prop :=
+  exists pc nd, fst t = At pc /\ nth_error g pc = Some nd /\ n_instr nd = IAcc f w.
 
-Definition initial (entries : list stmt) (S : list thread) : Prop :=
-  forall t, In t S -> exists e, In e entries /\ t = ([e], []).
+Definition racy (skip : field -> bool) (g : graph) (S : list thread) : Prop :=
+  exists i j ti tj f w1 w2,
+    i <> j /\ nth_error S i = Some ti /\ nth_error S j = Some tj /\
+    at_access g ti f w1 /\ at_access g tj f w2 /\ (w1 || w2) = true /\ skip f = false.
+
+Definition owner_of (g : graph) (t : thread) : option nat :=
+  match fst t with
+  | At pc => match nth_error g pc with Some nd => Some (n_owner nd) | None => None end
+  | Done => None
+  end.
+
+(* any number of threads, each starting at some entry with no lock held; at most one thread per
+   single-instance group (event handlers of one stream, periodic jobs, goroutines started once) *)
+Definition initial (single : nat -> bool) (g : graph) (entries : list nat) (S : list thread) : Prop :=
+  (forall t, In t S -> exists e, In e entries /\ t = (At e, [])) /\
+  (forall i j ti tj o, i <> j -> nth_error S i = Some ti -> nth_error S j = Some tj ->
+     owner_of g ti = Some o -> owner_of g tj = Some o -> single o = false).
